@@ -1,4 +1,4 @@
-CONSTANTS Family = "flags"  MaxOps = 1  Bug = ""  Emit = TRUE
+CONSTANTS Family = "flags"  MaxOps = 1  Bug = ""  Emit = TRUE  Wide = TRUE
 CONSTANT Codes <- MCCodesFull
 INIT Init
 NEXT Next
